@@ -803,6 +803,7 @@ type Req struct {
 	CType   string            `json:"ctype,omitempty"`
 	Fault   int               `json:"fault,omitempty"`
 	FaultE  string            `json:"faultErr,omitempty"` // io | notfound | tokennotfound
+	Wf      bool              `json:"-"`
 }
 
 // Resp is what the client (and the harness) observes of one request.
